@@ -20,6 +20,13 @@ def handle (cmd : String) (args : List Int) : Option String :=
       let (w, t, o) ← run (do let w ← nat; let t ← rows; let o ← outP; pure (w, t, o)) args
       let fl := failing t w o
       pure (if fl.isEmpty then "ok" else "fail " ++ ",".intercalate fl)
+  | "C02.modelGiven" => do
+      let (t, G) ← run (do let t ← rows; let G ← pairs; pure (t, G)) args
+      pure s!"{encBool (coversGiven G t)} {encOut (buildGiven G t)}"
+  | "C02.specGiven" => do
+      let (w, t, G, o) ← run (do let w ← nat; let t ← rows; let G ← pairs; let o ← outP; pure (w, t, G, o)) args
+      let fl := failingGiven t w G o
+      pure (if fl.isEmpty then "ok" else "fail " ++ ",".intercalate fl)
   | "C02.std" => do
       let (n, w, t) ← run (do let n ← nat; let w ← nat; let t ← rows; pure (n, w, t)) args
       pure (encBool (decide (StdForm n w t)))
